@@ -8,6 +8,7 @@ import itertools
 from vlib.table import Dut, Family, standard_check, replay_file
 
 LEVEL = "exploration"
+RAISED = 999999      # output recorded when building / elaborating the wrapper raises
 
 
 def _bits_for(n):
@@ -249,20 +250,20 @@ def _vec_gen_domain(cfg):
 
 FAMILIES = {}
 for _n in ("shift_right", "shift_left"):
-    FAMILIES[_n] = Family(_n, cfgs=_shift_cfgs, domain=_shift_domain, build=_shift_build(_n))
+    FAMILIES[_n] = Family(_n, cfgs=_shift_cfgs, domain=_shift_domain, build=_shift_build(_n), on_raise=RAISED)
 for _n in ("rotate_right", "rotate_left"):
-    FAMILIES[_n] = Family(_n, cfgs=_rot_cfgs, build=_rot_build(_n),
+    FAMILIES[_n] = Family(_n, cfgs=_rot_cfgs, build=_rot_build(_n), on_raise=RAISED,
                           domain=lambda cfg: ([x, off] for x in range(1 << cfg["w"]) for off in range(cfg["w"] + 1)))
 for _n in ("generic_shift_right", "generic_shift_left"):
-    FAMILIES[_n] = Family(_n, cfgs=_gen_cfgs, build=_gen_build(_n),
+    FAMILIES[_n] = Family(_n, cfgs=_gen_cfgs, build=_gen_build(_n), on_raise=RAISED,
                           domain=lambda cfg: ([a, b, off] for a in range(1 << cfg["w"]) for b in range(1 << cfg["w"])
                                               for off in range(cfg["w"] + 1)))
 for _n in ("shift_vec_right", "shift_vec_left"):
-    FAMILIES[_n] = Family(_n, cfgs=_vec_cfgs, domain=_vec_shift_domain, build=_vec_shift_build(_n))
+    FAMILIES[_n] = Family(_n, cfgs=_vec_cfgs, domain=_vec_shift_domain, build=_vec_shift_build(_n), on_raise=[RAISED])
 for _n in ("rotate_vec_right", "rotate_vec_left"):
-    FAMILIES[_n] = Family(_n, cfgs=_vec_rot_cfgs, domain=_vec_rot_domain, build=_vec_rot_build(_n))
+    FAMILIES[_n] = Family(_n, cfgs=_vec_rot_cfgs, domain=_vec_rot_domain, build=_vec_rot_build(_n), on_raise=[RAISED])
 for _n in ("generic_shift_vec_right", "generic_shift_vec_left"):
-    FAMILIES[_n] = Family(_n, cfgs=_vec_gen_cfgs, domain=_vec_gen_domain, build=_vec_gen_build(_n))
+    FAMILIES[_n] = Family(_n, cfgs=_vec_gen_cfgs, domain=_vec_gen_domain, build=_vec_gen_build(_n), on_raise=[RAISED])
 
 LAWS = ["TypeOK", "IdentityLaw", "ArithLaw", "RotateLaw", "GenericLaw", "MirrorLaw", "VecLaw"]
 
